@@ -26,6 +26,12 @@ def h_vertcat(sim, recv, args, kwargs, n):
     return NotImplemented
 
 
+class Closure:
+    """A lambda or nested function of the simulated code, with the environment it was created in."""
+    def __init__(self, node, env, fi):
+        self.node, self.env, self.fi = node, env, fi
+
+
 class Sim(Layout):
     def __init__(self, prog, hooks=None, truth=None):
         self.prog, self.cname = prog, None
@@ -78,7 +84,45 @@ class Sim(Layout):
         self.depth -= 1
         return r
 
+    def _e_Lambda(self, n, env, fi):
+        return Closure(n, env, fi)
+
+    def call_closure(self, c, args, kwargs):
+        a = c.node.args
+        env = dict(c.env)
+        names = [x.arg for x in a.posonlyargs + a.args]
+        for nm, v in zip(names, args):
+            env[nm] = v
+        if a.vararg:
+            env[a.vararg.arg] = list(args[len(names):])
+        for nm, d in zip(names[len(names) - len(a.defaults):], a.defaults):
+            if nm not in env or (nm in c.env and names.index(nm) >= len(args) and nm not in kwargs):
+                env[nm] = self.ev(d, c.env, c.fi)
+        extra = {}
+        for k, v in kwargs.items():
+            if k in names or k in [x.arg for x in a.kwonlyargs]:
+                env[k] = v
+            else:
+                extra[k] = v
+        if a.kwarg:
+            env[a.kwarg.arg] = extra
+        if isinstance(c.node, ast.Lambda):
+            return self.ev(c.node.body, env, c.fi)
+        self.depth += 1
+        if self.depth > 12:
+            raise LayoutUnknown("closure recursion too deep")
+        try:
+            self.block(c.node.body, env, c.fi)
+            r = None
+        except _Return as e:
+            r = e.value
+        self.depth -= 1
+        return r
+
     def stmt(self, st, env, fi):
+        if isinstance(st, ast.FunctionDef):
+            env[st.name] = Closure(st, env, fi)
+            return
         # assertions are part of the behaviour a scenario observes: a failing one ends the run like the AssertionError would
         if isinstance(st, ast.Assert) and getattr(self, "check_asserts", False):
             try:
@@ -97,8 +141,36 @@ class Sim(Layout):
             return self.truth[txt]
         return Layout.test(self, node, env, fi)
 
+    def _call_args(self, n, env, fi):
+        args = []
+        for a in n.args:
+            if isinstance(a, ast.Starred):
+                v = self.ev(a.value, env, fi)
+                args.extend(v if isinstance(v, (list, tuple)) else [Sym("star", v)])
+            else:
+                args.append(self.ev(a, env, fi))
+        kwargs = {}
+        for k in n.keywords:
+            if k.arg is not None:
+                kwargs[k.arg] = self.ev(k.value, env, fi)
+            else:
+                v = self.ev(k.value, env, fi)
+                if isinstance(v, dict):
+                    kwargs.update(v)
+        return args, kwargs
+
     def _e_Call(self, n, env, fi):
         f = n.func
+        # closures of the simulated code (lambdas, nested functions)
+        cv = env.get(f.id) if isinstance(f, ast.Name) else None
+        if cv is None and not isinstance(f, (ast.Name, ast.Attribute)):
+            try:
+                cv = self.ev(f, env, fi)
+            except LayoutUnknown:
+                cv = None
+        if isinstance(cv, Closure):
+            args, kwargs = self._call_args(n, env, fi)
+            return self.call_closure(cv, args, kwargs)
         name = f.id if isinstance(f, ast.Name) else ("." + f.attr if isinstance(f, ast.Attribute) else None)
         full = ast.unparse(f)
         hook = self.hooks.get(full) or self.hooks.get(name)
